@@ -159,16 +159,22 @@ def parse_cbmc_json(path):
 
 
 def trace_inputs(trace):
-    """collect final values of assignments in a CBMC json trace: name -> value"""
-    vals = {}
+    """collect values of assignments in a CBMC json trace: {"last": name -> final value,
+    "first": name -> first value (initial contents of objects the function later overwrites)};
+    dfcc bookkeeping variables are dropped"""
+    last, first = {}, {}
     for st in trace or []:
-        if st.get("stepType") == "assignment" and not st.get("hidden", False):
+        if st.get("stepType") == "assignment":
             lhs = st.get("lhs")
             v = st.get("value", {})
-            if lhs is None:
+            if lhs is None or lhs.startswith("__") or "dfcc" in lhs or "write_set" in lhs or lhs.startswith("tmp_"):
                 continue
-            vals[lhs] = v.get("data", v.get("name"))
-    return vals
+            if st.get("hidden", False) and not lhs.startswith(("dynamic_object", "reserved_features", "polyseed_mul2_table", "polyseed_deps")):
+                continue
+            val = v.get("data", v.get("name"))
+            last[lhs] = val
+            first.setdefault(lhs, val)
+    return {"last": last, "first": first}
 
 
 def run_unit(u: Unit, char: str, workroot: str, canary=False, keep=False, repo=None):
